@@ -4403,6 +4403,488 @@ fn stream_text(m: &mut Model, rep: &mut Report, rng: &Rng, thorough: bool) {
     }
 }
 
+
+// ------------------------------------------------------------------ clause-level grammar of SELECT (Clause.lean)
+
+/// texts of the opaque expression tokens `e<n>`: complete expressions that start with a token that
+/// cannot continue a preceding expression (literal, CASE, aggregate, `[`) and do not end in an identifier
+const C_EXPRS: &[&str] = &[
+    "1", "2 + 3 * 4", "'s' || 'x'", "1.5 < 2 OR c1 = 3", "TRUE AND NOT FALSE", "CASE WHEN c1 THEN 1 ELSE 2 END",
+    "1 IN (2, c3)", "2 BETWEEN 1 AND 3", "NULL IS NULL", "3 = f(1, t.c2)", "COUNT(*) > 1", "[1, 2]", "4 - (c1 + c2) * -1",
+    "SUM(DISTINCT c4) / 2", "'p%' LIKE 'q' IS NOT NULL", "7 % 2 <> (SELECT_ + 1)", "0 = c9.c8 + 1",
+];
+
+fn c_expr_text(n: usize) -> &'static str {
+    C_EXPRS[n % C_EXPRS.len()]
+}
+
+fn c_render(words: &[String], r: &mut Rng, fancy: bool) -> Rendered {
+    let mut text = String::new();
+    let mut starts = Vec::new();
+    for (i, w) in words.iter().enumerate() {
+        if i > 0 {
+            text.push_str(sep(r, fancy));
+        }
+        starts.push(text.len());
+        let t: String = match w.as_str() {
+            "," | "*" | "(" | ")" | ";" => w.clone(),
+            "other" => (*r.pick(&["}", ":", "@", "?", "#", "{"])).into(),
+            _ => {
+                if let Some(k) = w.strip_prefix('c').and_then(|k| k.parse::<usize>().ok()) {
+                    format!("c{k}")
+                } else if let Some(k) = w.strip_prefix('e').and_then(|k| k.parse::<usize>().ok()) {
+                    c_expr_text(k).to_string()
+                } else {
+                    match r.below(3) {
+                        0 => w.to_uppercase(),
+                        1 => w.to_lowercase(),
+                        _ => {
+                            let mut c = w.to_lowercase();
+                            c[..1].make_ascii_uppercase();
+                            c
+                        }
+                    }
+                }
+            }
+        };
+        text.push_str(&t);
+    }
+    Rendered { text, starts }
+}
+
+fn c_expand(ans: &str) -> String {
+    let b = ans.as_bytes();
+    let mut out = String::new();
+    let mut i = 0;
+    while i < b.len() {
+        let word_start = i == 0 || matches!(b[i - 1], b' ' | b'(');
+        if word_start && b[i] == b'e' && i + 1 < b.len() && b[i + 1].is_ascii_digit() {
+            let mut j = i + 1;
+            while j < b.len() && b[j].is_ascii_digit() {
+                j += 1;
+            }
+            if j == b.len() || matches!(b[j], b' ' | b')') {
+                let n: usize = ans[i + 1..j].parse().unwrap();
+                out.push_str(&np::parse_expr(c_expr_text(n)).map(|e| sx(&e)).unwrap_or_else(|e| format!("<bad-expr:{e}>")));
+                i = j;
+                continue;
+            }
+        }
+        out.push(b[i] as char);
+        i += 1;
+    }
+    out
+}
+
+fn cq_alias(a: &Option<np::Ident>) -> String {
+    a.as_ref().map_or("-".to_string(), |i| i.name.clone())
+}
+
+fn cq_tref(t: &np::TableRef) -> String {
+    match &t.kind {
+        np::TableRefKind::Table(n) => format!("(t {} {})", n.name, cq_alias(&t.alias)),
+        np::TableRefKind::Subquery(q) => format!("(sub {} {})", cq_sx(q), cq_alias(&t.alias)),
+    }
+}
+
+/// real `SelectStmt` in the driver's `showCQ` syntax
+fn cq_sx(s: &np::SelectStmt) -> String {
+    let optx = |e: &Option<Box<np::Expr>>| e.as_ref().map_or("-".to_string(), |e| sx(e));
+    let items: String = s.columns.iter().map(|c| format!(" (it {} {})", sx(&c.expr), cq_alias(&c.alias))).collect();
+    let src = match &s.from {
+        None => "-".to_string(),
+        Some(f) => {
+            let joins: String = f
+                .joins
+                .iter()
+                .map(|j| {
+                    let kind = match j.kind {
+                        np::JoinKind::Inner => "inner",
+                        np::JoinKind::Left => "left",
+                        np::JoinKind::Right => "right",
+                        np::JoinKind::Full => "full",
+                        np::JoinKind::Cross => "cross",
+                        np::JoinKind::Natural => "natural",
+                    };
+                    let cond = match &j.condition {
+                        None => "-".to_string(),
+                        Some(np::JoinCondition::On(e)) => format!("(on {})", sx(e)),
+                        Some(np::JoinCondition::Using(cs)) => format!("(using{})", cs.iter().map(|c| format!(" {}", c.name)).collect::<String>()),
+                    };
+                    format!(" (j {kind} {} {cond})", cq_tref(&j.table))
+                })
+                .collect();
+            format!("(from {}{joins})", cq_tref(&f.table))
+        }
+    };
+    let group: String = s.group_by.iter().map(|e| format!(" {}", sx(e))).collect();
+    let order: String = s
+        .order_by
+        .iter()
+        .map(|o| {
+            format!(
+                " (o {} {} {})",
+                sx(&o.expr),
+                if o.direction == np::SortDirection::Desc { "desc" } else { "asc" },
+                match o.nulls {
+                    None => "-",
+                    Some(np::NullsOrder::First) => "first",
+                    Some(np::NullsOrder::Last) => "last",
+                }
+            )
+        })
+        .collect();
+    format!(
+        "(q {} (items{items}) {src} (where {}) (group{group}) (having {}) (order{order}) (limit {}) (offset {}))",
+        if s.distinct { "d" } else { "-" },
+        optx(&s.where_clause),
+        optx(&s.having),
+        optx(&s.limit),
+        optx(&s.offset)
+    )
+}
+
+fn c_real(rd: &Rendered) -> String {
+    let text = rd.text.clone();
+    match guarded(move || np::parse(&text)) {
+        Ok(Ok(st)) => match st.kind {
+            StatementKind::Select(s) => format!("ok {}", cq_sx(&s)),
+            _ => "ok <not-select>".into(),
+        },
+        Ok(Err(e)) => canon_err(&e, rd),
+        Err(p) => format!("panic {p}"),
+    }
+}
+
+fn c_case(m: &mut Model, rep: &mut Report, r: &mut Rng, words: &[String], stream: &str) -> String {
+    let fancy = r.chance(1, 6);
+    let rd = c_render(words, r, fancy);
+    let line = words.join(" ");
+    let imp = c_real(&rd);
+    let model = c_expand(&m.ask(&format!("clause {line}")));
+    if model == "outside" {
+        rep.hit("clause.outside");
+        return imp;
+    }
+    rep.case(stream, if words.len() >= 4 { Some(&rd.text) } else { None });
+    rep.compare(stream, || json!({"text": rd.text, "tokens": line}), &imp, &model);
+    rep.hit(&format!("clause.result.{}", f_tag(&imp).replace("SELECT", "select_kw")));
+    imp
+}
+
+/// generated `SelectStmt` of the clause-level grammar, with its tokens (in a random spelling) and the
+/// expected answer written independently of the model
+struct CGen {
+    n: usize,
+}
+
+impl CGen {
+    fn fresh(&mut self) -> usize {
+        self.n += 1;
+        self.n
+    }
+    fn xe(&mut self, r: &mut Rng, words: &mut Vec<String>) -> String {
+        let k = self.fresh();
+        match r.below(6) {
+            0 => {
+                words.push(format!("c{k}"));
+                format!("id:c{k}")
+            }
+            1 => {
+                words.push("*".into());
+                "*".into()
+            }
+            _ => {
+                words.push(format!("e{k}"));
+                format!("e{k}")
+            }
+        }
+    }
+    fn alias(&mut self, r: &mut Rng, words: &mut Vec<String>) -> String {
+        match r.below(3) {
+            0 => "-".into(),
+            1 => {
+                let k = self.fresh();
+                words.push("as".into());
+                words.push(format!("c{k}"));
+                format!("c{k}")
+            }
+            _ => {
+                let k = self.fresh();
+                words.push(format!("c{k}"));
+                format!("c{k}")
+            }
+        }
+    }
+    fn tref(&mut self, r: &mut Rng, depth: usize, words: &mut Vec<String>) -> String {
+        if depth > 0 && r.chance(1, 3) {
+            words.push("(".into());
+            let q = self.q(r, depth - 1, words);
+            words.push(")".into());
+            let a = self.alias(r, words);
+            format!("(sub {q} {a})")
+        } else {
+            let k = self.fresh();
+            words.push(format!("c{k}"));
+            let a = self.alias(r, words);
+            format!("(t c{k} {a})")
+        }
+    }
+    fn q(&mut self, r: &mut Rng, depth: usize, words: &mut Vec<String>) -> String {
+        words.push("select".into());
+        let d = match r.below(4) {
+            0 => {
+                words.push("distinct".into());
+                "d"
+            }
+            1 => {
+                words.push("all".into());
+                "-"
+            }
+            _ => "-",
+        };
+        let mut items = String::new();
+        for i in 0..1 + r.below(3) {
+            if i > 0 {
+                words.push(",".into());
+            }
+            let x = self.xe(r, words);
+            // `*` directly followed by an implicit alias is fine; an identifier expression followed by `(` is not generated
+            let a = self.alias(r, words);
+            items.push_str(&format!(" (it {x} {a})"));
+        }
+        let src = if r.chance(3, 4) {
+            words.push("from".into());
+            let t = self.tref(r, depth, words);
+            let mut joins = String::new();
+            for _ in 0..r.below(3) {
+                let (kw, kind): (&[&str], &str) = match r.below(10) {
+                    0 => (&["cross", "join"], "cross"),
+                    1 => (&["natural", "join"], "natural"),
+                    2 => (&["inner", "join"], "inner"),
+                    3 => (&["join"], "inner"),
+                    4 => (&["left", "join"], "left"),
+                    5 => (&["left", "outer", "join"], "left"),
+                    6 => (&["right", "join"], "right"),
+                    7 => (&["right", "outer", "join"], "right"),
+                    8 => (&["full", "join"], "full"),
+                    _ => (&["full", "outer", "join"], "full"),
+                };
+                words.extend(kw.iter().map(|s| s.to_string()));
+                let jt = self.tref(r, depth, words);
+                let cond = match r.below(3) {
+                    0 => "-".to_string(),
+                    1 => {
+                        words.push("on".into());
+                        format!("(on {})", self.xe(r, words))
+                    }
+                    _ => {
+                        words.push("using".into());
+                        words.push("(".into());
+                        let mut cs = String::new();
+                        for i in 0..1 + r.below(3) {
+                            if i > 0 {
+                                words.push(",".into());
+                            }
+                            let k = self.fresh();
+                            words.push(format!("c{k}"));
+                            cs.push_str(&format!(" c{k}"));
+                        }
+                        words.push(")".into());
+                        format!("(using{cs})")
+                    }
+                };
+                joins.push_str(&format!(" (j {kind} {jt} {cond})"));
+            }
+            format!("(from {t}{joins})")
+        } else {
+            "-".to_string()
+        };
+        let opt = |me: &mut CGen, r: &mut Rng, kw: &[&str], words: &mut Vec<String>| -> String {
+            if r.chance(1, 3) {
+                words.extend(kw.iter().map(|s| s.to_string()));
+                me.xe(r, words)
+            } else {
+                "-".into()
+            }
+        };
+        let whr = opt(self, r, &["where"], words);
+        let mut group = String::new();
+        if r.chance(1, 3) {
+            words.push("group".into());
+            words.push("by".into());
+            for i in 0..1 + r.below(3) {
+                if i > 0 {
+                    words.push(",".into());
+                }
+                group.push_str(&format!(" {}", self.xe(r, words)));
+            }
+        }
+        let having = opt(self, r, &["having"], words);
+        let mut order = String::new();
+        if r.chance(1, 3) {
+            words.push("order".into());
+            words.push("by".into());
+            for i in 0..1 + r.below(3) {
+                if i > 0 {
+                    words.push(",".into());
+                }
+                let x = self.xe(r, words);
+                let dir = match r.below(3) {
+                    0 => {
+                        words.push("desc".into());
+                        "desc"
+                    }
+                    1 => {
+                        words.push("asc".into());
+                        "asc"
+                    }
+                    _ => "asc",
+                };
+                let nulls = match r.below(3) {
+                    0 => {
+                        words.push("nulls".into());
+                        words.push("first".into());
+                        "first"
+                    }
+                    1 => {
+                        words.push("nulls".into());
+                        words.push("last".into());
+                        "last"
+                    }
+                    _ => "-",
+                };
+                order.push_str(&format!(" (o {x} {dir} {nulls})"));
+            }
+        }
+        let limit = opt(self, r, &["limit"], words);
+        let offset = opt(self, r, &["offset"], words);
+        format!("(q {d} (items{items}) {src} (where {whr}) (group{group}) (having {having}) (order{order}) (limit {limit}) (offset {offset}))")
+    }
+}
+
+/// `*` or an identifier expression directly followed by an alias / `(` can leave the model's domain;
+/// the generator avoids the one shape that does (`c1 (`) by construction, `* *` cannot occur.
+const C_DIRECTED: &[&str] = &[
+    "select *", "select * ;", "; ; select * ; other", "select", "select ,", "select * ,", "select e1 as", "select e1 as e2", "select e1 as c2 c3",
+    "select e1 c2 , c3 c4 , * c5", "select distinct all e1", "select all distinct", "select all e1 from c1", "select e1 from", "select e1 from e2",
+    "select e1 from c1 as", "select e1 from c1 as c2 c3", "select e1 from c1 c2 where e3", "select e1 from ( select e2 ) c3", "select e1 from ( select e2",
+    "select e1 from ( c1 )", "select e1 from ( select e2 ) as", "select e1 from c1 join c2", "select e1 from c1 inner c2", "select e1 from c1 cross",
+    "select e1 from c1 left outer c2", "select e1 from c1 left outer join c2 on", "select e1 from c1 outer join c2", "select e1 from c1 natural join c2 using",
+    "select e1 from c1 join c2 using (", "select e1 from c1 join c2 using ( )", "select e1 from c1 join c2 using ( c3 ,", "select e1 from c1 join c2 using ( c3 , e4 )",
+    "select e1 from c1 join c2 using ( c3 c4 )", "select e1 from c1 join c2 on e3 on e4", "select e1 from c1 join c2 using ( c3 ) on e4",
+    "select e1 from c1 full join ( select * from c2 right join c3 ) c4 on e5 cross join c6", "select e1 where", "select e1 where e2 where e3",
+    "select e1 group e2", "select e1 group by", "select e1 group by e2 ,", "select e1 group by e2 , c3 having", "select e1 having e2 group by e3",
+    "select e1 order by e2 desc asc", "select e1 order by e2 nulls", "select e1 order by e2 nulls c3", "select e1 order by e2 asc nulls last , e3 nulls first",
+    "select e1 limit", "select e1 offset e2 limit e3", "select e1 limit e2 offset e3 other", "select e1 limit e2 , e3", "select c1 ( e2 )", "select * * e1",
+    "select ( e1 )", "select e1 from c1 where e2 group by e3 having e4 order by e5 limit e6 offset e7 ;", "other select e1", "select other",
+];
+
+fn c_chain_words(levels: usize, join_every: usize, closed: bool) -> Vec<String> {
+    // SELECT e1 FROM ( SELECT e1 FROM … ) with every `join_every`-th level entered through a JOIN's table reference
+    let mut words: Vec<String> = Vec::new();
+    let mut closers: Vec<Vec<&str>> = Vec::new();
+    for i in 0..levels {
+        words.extend(["select", "e1", "from"].iter().map(|s| s.to_string()));
+        if join_every > 0 && i % join_every == join_every - 1 {
+            words.extend(["c1", "left", "join"].iter().map(|s| s.to_string()));
+            closers.push(vec![")", "on", "e2"]);
+        } else {
+            closers.push(vec![")", "c3"]);
+        }
+        words.push("(".into());
+    }
+    words.extend(["select", "*"].iter().map(|s| s.to_string()));
+    if closed {
+        while let Some(c) = closers.pop() {
+            words.extend(c.iter().map(|s| s.to_string()));
+        }
+    }
+    words
+}
+
+fn stream_clause(m: &mut Model, rep: &mut Report, rng: &Rng, thorough: bool) {
+    let mut r = rng.fork("clause");
+    for line in C_DIRECTED {
+        c_case(m, rep, &mut r, &words_of(line), "clause.directed");
+    }
+    for levels in 60..=67usize {
+        for join_every in [0usize, 1, 3] {
+            for closed in [true, false] {
+                let imp = c_case(m, rep, &mut r, &c_chain_words(levels, join_every, closed), "clause.chain");
+                rep.hit(&format!("clause.chain.{}", f_tag(&imp)));
+            }
+        }
+    }
+    let n = if thorough { 20000 } else { 1500 };
+    for _ in 0..n {
+        let mut g = CGen { n: 0 };
+        let mut words = Vec::new();
+        let depth = r.below(4) as usize;
+        let want = g.q(&mut r, depth, &mut words);
+        if r.chance(1, 4) {
+            words.push(";".into());
+        }
+        let imp = c_case(m, rep, &mut r, &words, "clause.trees");
+        let want = c_expand(&format!("ok {want}"));
+        if imp != want {
+            viol_once(rep, "neumann_parser::Parser::parse_select_body/clause_structure",
+                &format!("a generated SELECT does not parse to its own structure: got {imp}, want {want}"),
+                json!({"tokens": words.join(" ")}));
+        }
+    }
+    let alphabet: Vec<&str> = vec![
+        "select", "distinct", "all", ",", "as", "*", "from", "(", ")", "join", "inner", "left", "right", "full", "outer", "cross", "natural",
+        "on", "using", "where", "group", "by", "having", "order", "asc", "desc", "nulls", "first", "last", "limit", "offset", ";", "other",
+    ];
+    let n = if thorough { 30000 } else { 2500 };
+    for _ in 0..n {
+        let mut g = CGen { n: 0 };
+        let mut words = Vec::new();
+        let depth = r.below(3) as usize;
+        g.q(&mut r, depth, &mut words);
+        for _ in 0..1 + r.below(3) {
+            if words.is_empty() {
+                break;
+            }
+            let i = r.below(words.len() as u64) as usize;
+            match r.below(5) {
+                0 => {
+                    words.remove(i);
+                }
+                1 => {
+                    let w = match r.below(4) {
+                        0 => format!("c{}", r.below(9)),
+                        1 => format!("e{}", r.below(9)),
+                        _ => (*r.pick(&alphabet)).to_string(),
+                    };
+                    words.insert(i, w);
+                }
+                2 => words.truncate(i),
+                3 => {
+                    let j = r.below(words.len() as u64) as usize;
+                    words.swap(i, j);
+                }
+                _ => words[i] = (*r.pick(&alphabet)).to_string(),
+            }
+        }
+        c_case(m, rep, &mut r, &words, "clause.mutant");
+    }
+    let n = if thorough { 20000 } else { 1500 };
+    for _ in 0..n {
+        let len = r.below(12) as usize;
+        let mut words: Vec<String> = vec!["select".into()];
+        for _ in 0..len {
+            words.push(match r.below(5) {
+                0 => format!("c{}", r.below(9)),
+                1 => format!("e{}", r.below(9)),
+                _ => (*r.pick(&alphabet)).to_string(),
+            });
+        }
+        c_case(m, rep, &mut r, &words, "clause.soup");
+    }
+}
+
 // ------------------------------------------------------------------ main
 
 fn main() {
@@ -4481,6 +4963,7 @@ fn main() {
     stream_boundary(&mut m, &mut rep, &rng);
     stream_select(&mut m, &mut rep, &rng, args.thorough);
     stream_nest(&mut m, &mut rep, &rng, args.thorough);
+    stream_clause(&mut m, &mut rep, &rng, args.thorough);
     stream_lex(&mut m, &mut rep, &rng, args.thorough);
     stream_text(&mut m, &mut rep, &rng, args.thorough);
     f_chains(&mut m, &mut rep, &rng, args.thorough);
